@@ -8,6 +8,7 @@ pub mod idl;
 pub mod pb;
 pub mod thrift;
 pub mod thrift2;
+pub mod thrift3;
 pub mod thrift_rt;
 pub mod val;
 
@@ -23,6 +24,7 @@ pub type GenFn = fn(&str, &str, u64, &mut dyn Write) -> bool;
 pub const MODULES: &[(ExecFn, GenFn)] = &[
     (thrift_rt::exec, thrift_rt::gen),
     (thrift2::exec, thrift2::gen),
+    (thrift3::exec, thrift3::gen),
     (pb::exec, pb::gen),
     (idl::exec, idl::gen),
 ];
